@@ -64,6 +64,21 @@ type vfCfg struct {
 	cmd        int  // 0: CmdGet (read) / CmdPrewrite (write); else the tikvrpc.CmdType to send (read := isReadReq(cmd))
 	inv        bool // the cached region is invalidated between locate and send (oracles only)
 	tp         byte // req.StoreTp and endpoint type: K TiKV (default), F TiFlash (region with one TiFlash peer), D TiDB
+	cx         string // the caller cancels the context: "-" never, "P" before the call, "A<i>" while attempt i is in flight, "B<j>" during the j-th back-off sleep
+	kl         string // kv.Variables.Killed is set: same encoding
+	async      bool   // go through SendReqAsync (failpoint useSendReqAsync)
+}
+
+func vfTrigAt(t string, kind byte, n int) bool {
+	if len(t) < 2 || t[0] != kind {
+		return false
+	}
+	v, err := strconv.Atoi(t[1:])
+	return err == nil && v == n
+}
+
+func vfInterruptible(t tikvrpc.CmdType) bool {
+	return t != tikvrpc.CmdPessimisticRollback && t != tikvrpc.CmdBatchRollback && t != tikvrpc.CmdCommit
 }
 
 func b01(b bool) string {
@@ -78,9 +93,9 @@ func (c vfCfg) String() string {
 	if c.label >= 0 {
 		lb = strconv.Itoa(c.label)
 	}
-	return fmt.Sprintf("rt=%c,st=%s,rd=%s,lb=%s,lo=%s,lv=%s,sl=%s%s%s,thr=%s,to=%s,ms=%d,val=%s,lr=%s,fw=%s,cmd=%d,inv=%s,tp=%c",
+	return fmt.Sprintf("rt=%c,st=%s,rd=%s,lb=%s,lo=%s,lv=%s,sl=%s%s%s,thr=%s,to=%s,ms=%d,val=%s,lr=%s,fw=%s,cmd=%d,inv=%s,tp=%c,cx=%s,kl=%s,ir=%s,as=%s",
 		c.rt, b01(c.stale), b01(c.read), lb, b01(c.leaderOnly), string(c.live[:]), b01(c.slow[0]), b01(c.slow[1]), b01(c.slow[2]),
-		b01(c.thr), b01(c.shortTO), c.ms, b01(c.val), b01(c.learner), b01(c.fw), c.cmd, b01(c.inv), c.tp)
+		b01(c.thr), b01(c.shortTO), c.ms, b01(c.val), b01(c.learner), b01(c.fw), c.cmd, b01(c.inv), c.tp, c.cx, c.kl, b01(c.cmd == 0 || vfInterruptible(tikvrpc.CmdType(c.cmd))), b01(c.async))
 }
 
 func vfParseCfg(s string) vfCfg {
@@ -130,6 +145,12 @@ func vfParseCfg(s string) vfCfg {
 			c.inv = v == "1"
 		case "tp":
 			c.tp = v[0]
+		case "cx":
+			c.cx = v
+		case "kl":
+			c.kl = v
+		case "as":
+			c.async = v == "1"
 		}
 	}
 	if c.cmd != 0 {
@@ -222,15 +243,24 @@ func vfMkResp(req *tikvrpc.Request, re *errorpb.Error) *tikvrpc.Response {
 }
 
 func vfDefaultCfg() vfCfg {
-	return vfCfg{rt: 'L', read: true, label: -1, live: [3]byte{'R', 'R', 'R'}, ms: 100000, val: true, tp: 'K'}
+	return vfCfg{rt: 'L', read: true, label: -1, live: [3]byte{'R', 'R', 'R'}, ms: 100000, val: true, tp: 'K', cx: "-", kl: "-"}
 }
 
 type vfRecorder struct{ run **vfRun }
 
 func (r vfRecorder) Observe(v float64) {
 	if *r.run != nil {
-		(*r.run).sleeps = append((*r.run).sleeps, int(v*1000+0.5))
-		(*r.run).events = append((*r.run).events, "B")
+		rr := *r.run
+		rr.sleeps = append(rr.sleeps, int(v*1000+0.5))
+		rr.events = append(rr.events, "B")
+		// the flags may be raised during this (virtual) sleep: Observe runs after the sleep, before CheckKilled
+		j := len(rr.sleeps) - 1
+		if vfTrigAt(rr.cfg.cx, 'B', j) && rr.cancel != nil {
+			rr.cancel()
+		}
+		if vfTrigAt(rr.cfg.kl, 'B', j) {
+			atomic.StoreUint32(&rr.killed, 1)
+		}
 	}
 }
 
@@ -251,6 +281,9 @@ type vfRun struct {
 	meta     *metapb.Region
 	lastAns  string
 	resps    []*tikvrpc.Response // what the scripted stores returned, per attempt (nil: RPC error)
+	ctx      context.Context
+	cancel   context.CancelFunc
+	killed   uint32
 }
 
 type vfFix struct {
@@ -364,7 +397,8 @@ func (c *vfClient) Close() error                                       { return 
 func (c *vfClient) CloseAddr(addr string) error                        { return nil }
 func (c *vfClient) SetEventListener(l client.ClientEventListener)      {}
 func (c *vfClient) SendRequestAsync(ctx context.Context, addr string, req *tikvrpc.Request, cb async.Callback[*tikvrpc.Response]) {
-	panic("verif: async path not used")
+	resp, err := c.SendRequest(ctx, addr, req, 0)
+	cb.Invoke(resp, err)
 }
 
 func vfLive(b byte) livenessState {
@@ -401,6 +435,17 @@ func (c *vfClient) answer(ctx context.Context, addr string, req *tikvrpc.Request
 		r.bad = append(r.bad, fmt.Sprintf("peer-mismatch@%d", i))
 	}
 	r.events = append(r.events, fmt.Sprintf("A%d:%s%s%s%s", idx, b01(req.ReplicaRead), b01(req.StaleRead), b01(req.IsRetryRequest), via))
+	if ctx.Err() != nil {
+		// like a real client: a cancelled context is answered with the context error, whatever the store would say
+		r.lastAns = "CX"
+		return nil, ctx.Err()
+	}
+	if vfTrigAt(r.cfg.cx, 'A', i) {
+		r.cancel()
+	}
+	if vfTrigAt(r.cfg.kl, 'A', i) {
+		atomic.StoreUint32(&r.killed, 1)
+	}
 	sym := "OK"
 	if i < len(r.script) && i < vfCap {
 		sym = r.script[i]
@@ -652,7 +697,23 @@ func (f *vfFix) run(c vfCfg, script []string) vfRes {
 		r.rands = append(r.rands, fmt.Sprintf("%d:%d", n, v))
 		return v
 	}
-	bo := retry.NewBackoffer(context.Background(), c.ms)
+	r.ctx, r.cancel = context.WithCancel(context.Background())
+	defer r.cancel()
+	vars := kv.NewVariables(&r.killed)
+	vars.BackOffWeight = 1
+	bo := retry.NewBackofferWithVars(r.ctx, c.ms, vars)
+	if c.cx == "P" {
+		r.cancel()
+	}
+	if c.kl == "P" {
+		atomic.StoreUint32(&r.killed, 1)
+	}
+	if c.async {
+		if err := failpoint.Enable("tikvclient/useSendReqAsync", "return(true)"); err != nil {
+			panic(err)
+		}
+		defer failpoint.Disable("tikvclient/useSendReqAsync")
+	}
 	sender := NewRegionRequestSender(f.cache, &vfClient{r: r}, validator)
 	if c.inv {
 		rc.invalidate(Other, true)
@@ -788,7 +849,7 @@ func (f *vfFix) run(c vfCfg, script []string) vfRes {
 	case 'E':
 		// an error is only allowed once the back-off budget is spent (or validation failed)
 		spent := total-excl >= c.ms || (excl >= vfExclLimit && excl >= c.ms)
-		if !(c.read && !c.val) && !spent {
+		if !(c.read && !c.val) && !spent && c.cx == "-" && c.kl == "-" {
 			fails = append(fails, "error-before-budget-spent")
 		}
 	case 'F':
@@ -796,7 +857,25 @@ func (f *vfFix) run(c vfCfg, script []string) vfRes {
 	default:
 		fails = append(fails, "result-shape")
 	}
-	if r.attempts > 0 && retryTimes != r.attempts-1 {
+	// caller cancellation / kill: the call ends at once — at most one more attempt reaches a client after the context
+	// was cancelled (it is answered with the context error), none after the kill flag was seen by an interruptible request
+	trigAtt := func(t string) int {
+		if t == "P" {
+			return -1
+		}
+		if len(t) >= 2 && t[0] == 'A' {
+			v, _ := strconv.Atoi(t[1:])
+			return v
+		}
+		return -2
+	}
+	if i := trigAtt(c.cx); i >= -1 && r.attempts > i+2 {
+		fails = append(fails, fmt.Sprintf("retried-after-cancel:attempts=%d,cancel-at=%d", r.attempts, i))
+	}
+	if i := trigAtt(c.kl); i >= -1 && (c.cmd == 0 || vfInterruptible(cmdType)) && !c.async && r.attempts > i+1 {
+		fails = append(fails, fmt.Sprintf("retried-after-kill:attempts=%d,kill-at=%d", r.attempts, i))
+	}
+	if r.attempts > 0 && retryTimes != r.attempts-1 && !c.async {
 		fails = append(fails, "retry-times")
 	}
 	if len(r.bad) > 0 {
@@ -831,10 +910,11 @@ var vfAlphaAll = []string{"Er", "Eu", "Ek", "Dr", "Du", "NL", "N0", "N1", "N2", 
 // symbols after which (for every configuration) the call returns: extending is pointless but harmless (pruned dynamically)
 
 type vfGen struct {
-	f     *vfFix
-	out   *bufio.Writer
-	n     int
-	nfail int
+	f        *vfFix
+	out      *bufio.Writer
+	n        int
+	nfail    int
+	asyncMax int // scripts up to this length are also run through SendReqAsync (-1: none)
 }
 
 func (g *vfGen) emit(c vfCfg, script []string) vfRes {
@@ -852,6 +932,26 @@ func (g *vfGen) emit(c vfCfg, script []string) vfRes {
 	g.n++
 	if res.oracle != "pass" {
 		g.nfail++
+	}
+	// (not together with a cancelled context: SendReqCtx's run loop then returns at once while the retry goroutine is still
+	// running, so what was attempted "by the time the call returned" is a race)
+	if !c.async && c.tp == 'K' && c.cx == "-" && len(script) <= g.asyncMax {
+		// the same case through SendReqAsync (first attempt by initForAsyncRequest/handleAsyncResponse, then next())
+		a := c
+		a.async = true
+		if g.f.dirty {
+			g.f = vfNewFix()
+		}
+		ar := g.f.run(a, script)
+		if ar.nAtt == 0 && ar.result == "P" {
+			ar = g.f.run(a, script)
+		}
+		g.out.WriteString(ar.line)
+		g.out.WriteByte('\n')
+		g.n++
+		if ar.oracle != "pass" {
+			g.nfail++
+		}
 	}
 	return res
 }
@@ -961,6 +1061,14 @@ func vfRandCfg(rng *rand.Rand, fw bool) vfCfg {
 	c.val = rng.Intn(20) != 0
 	c.learner = rng.Intn(4) == 0
 	c.fw = fw
+	if rng.Intn(5) == 0 {
+		t := []string{"P", "A0", "A1", "A2", "A3", "A5", "B0", "B1", "B2"}[rng.Intn(9)]
+		if rng.Intn(2) == 0 {
+			c.cx = t
+		} else {
+			c.kl = t
+		}
+	}
 	return c
 }
 
@@ -997,7 +1105,7 @@ func VerifSendReqMain(args []string) int {
 	f := vfNewFix()
 	out := bufio.NewWriterSize(os.Stdout, 1<<20)
 	defer out.Flush()
-	g := &vfGen{f: f, out: out}
+	g := &vfGen{f: f, out: out, asyncMax: -1}
 	if len(args) >= 3 && args[0] == "replay" {
 		c := vfParseCfg(args[1])
 		var script []string
@@ -1046,6 +1154,10 @@ func VerifSendReqMain(args []string) int {
 	if v := os.Getenv("VERIF_C10_LA"); v != "" {
 		LA, _ = strconv.Atoi(v)
 	}
+	g.asyncMax = 3
+	if thorough {
+		g.asyncMax = 4
+	}
 	for _, c := range base {
 		g.enum(c, alphaA, nil, LA)
 	}
@@ -1085,6 +1197,35 @@ func VerifSendReqMain(args []string) int {
 			}
 			g.enum(c, alphaA, nil, L)
 		}
+	}
+	// class H: the caller cancels the context / the kill flag is set: before the call, while attempt i is in flight,
+	// during the j-th back-off sleep; interruptible and non-interruptible (Commit) requests
+	LH := 2
+	if thorough {
+		LH = 3
+	}
+	trigs := []string{"P", "A0", "A1", "A2", "B0", "B1"}
+	for _, c := range base {
+		for _, t := range trigs {
+			d := c
+			d.cx = t
+			g.enum(d, alphaA, nil, LH)
+			d = c
+			d.kl = t
+			g.enum(d, alphaA, nil, LH)
+		}
+		d := c
+		d.cx, d.kl = "A1", "B0"
+		g.enum(d, alphaA, nil, LH)
+	}
+	for _, t := range trigs {
+		d := vfDefaultCfg()
+		d.cmd = int(tikvrpc.CmdCommit)
+		d.read = false
+		d.kl = t
+		g.enum(d, alphaA, nil, LH)
+		d.kl, d.cx = "-", t
+		g.enum(d, alphaA, nil, LH)
 	}
 	// class G: request dimension StoreTp x endpoint type (validation gate): TiFlash- and TiDB-served coprocessor reads,
 	// validation passing / failing, plain and stale
